@@ -377,67 +377,6 @@ def r05_3_literal_op_lists(ctx):
     ctx.require_min("R05.3", 12)
 
 
-TYPING_TABLE = [
-    # (class, method, subject text, required type text, reason)
-    ("While", "__init__", "cond", "TealType.uint64"),
-    ("While", "Do", "doBlock", "TealType.none"),
-    ("For", "__init__", "cond", "TealType.uint64"),
-    ("For", "__init__", "start", "TealType.none"),
-    ("For", "__init__", "step", "TealType.none"),
-    ("For", "Do", "doBlock", "TealType.none"),
-    ("If", "__init__", "cond", "TealType.uint64"),
-    ("If", "__init__", "thenBranch", "elseBranch.type_of()"),
-    ("If", "__init__", "thenBranch", "TealType.none"),
-    ("If", "Else", "elseBranch", "self.thenBranch.type_of()"),
-    ("If", "type_of", "self.thenBranch", "TealType.none"),
-    ("Assert", "__init__", "cond", "TealType.uint64"),
-    ("Assert", "__init__", "cond_single", "TealType.uint64"),
-    ("Cond", "__init__", "arg[0]", "TealType.uint64"),
-    ("Cond", "__init__", "arg[1]", "value_type"),
-    ("Seq", "__init__", "expr", "TealType.none"),
-    ("ScratchVar", "store", "value", "self.type"),
-    ("DynamicScratchVar", "store", "value", "self.dynamic_type"),
-    ("FrameBury", "__init__", "value", "target_type"),
-    ("DupN", "__init__", "value", "TealType.anytype"),
-    ("ExitProgram", "__init__", "success", "TealType.uint64"),
-    ("SuffixExpr", "__init__", "stringArg", "TealType.bytes"),
-    ("SuffixExpr", "__init__", "startArg", "TealType.uint64"),
-]
-
-
-def r05_4_construct_typing(ctx):
-    ctx.rule("R05.4", "construct typing table: conditions are uint64, loop parts and non-final sequence elements are none, branches agree, stores match their variable's type - each enforced by a require_type that dominates the attribute store")
-    for cname, meth, subj, ty in TYPING_TABLE:
-        c = ctx.model.find_class(cname)
-        f = ctx.model.resolve_method(c, meth)
-        q.need(f is not None, f"{cname}.{meth} vanished")
-        ctx.analysed(f.fq)
-        hits = [x for x in q.calls_named(f.node, "require_type", into_nested=False) if len(x.args) == 2 and u(x.args[0]) == subj and u(x.args[1]) == ty]
-        construct = f"{cname}.{meth}:{subj}:{ty}"
-        if not hits:
-            ctx.bad("R05.4", construct, f"{cname}.{meth} no longer requires `{subj}` to be of type {ty}", f.where)
-            continue
-        # the check must not be bypassable: the attribute store of the subject (if any) comes after it
-        stores = [n for n in walk_local(f.node) if isinstance(n, ast.Assign) and isinstance(n.targets[0], ast.Attribute) and u(n.targets[0].value) == "self" and subj in [x.id for x in ast.walk(n.value) if isinstance(x, ast.Name)]]
-        ok = all(h.lineno < s.lineno for h in hits[:1] for s in stores)
-        ctx.check(ok, "R05.4", construct, f"the type check on `{subj}` comes after the value is stored", f"{f.module.rel}:{hits[0].lineno}", fact={"guards": q.nguards(hits[0])[-2:]})
-    # Seq: the check applies to every element but the last
-    c = ctx.model.find_class("Seq")
-    f = c.methods["__init__"]
-    h = [x for x in q.calls_named(f.node, "require_type", into_nested=False)][0]
-    gs = q.nguards(h)
-    ctx.check(("i + 1 < len(exprs)", True) in gs and ("isinstance(expr, Expr)", True) in gs, "R05.4", "Seq.__init__:all-but-last", f"every element except the last must be checked to be of type none (guards {gs})", f.where, fact={"guards": gs})
-    # If: which check applies when
-    c = ctx.model.find_class("If")
-    f = c.methods["__init__"]
-    for x in q.calls_named(f.node, "require_type", into_nested=False):
-        if u(x.args[0]) == "thenBranch":
-            gs = q.nguards(x)
-            want = [("thenBranch", True), ("elseBranch", True)] if "elseBranch" in u(x.args[1]) else [("thenBranch", True), ("elseBranch", False)]
-            ctx.check(gs == want, "R05.4", f"If.__init__:{u(x.args[1])}:when", f"guards {gs}, expected {want}", f"{f.module.rel}:{x.lineno}", fact={"guards": gs})
-    ctx.require_min("R05.4", 24)
-
-
 from sa.astutil import walk_local  # noqa: E402
 
 
@@ -448,7 +387,8 @@ def r05_7_typed_variables(ctx):
     types = ["none", "uint64", "bytes", "anytype"]
     mods = ["pyteal.ast.frame", "pyteal.types", "pyteal.ast.scratchvar", "pyteal.ast.scratch", "pyteal.ast.abstractvar"]
     real = {"FrameVar", "FrameBury", "FrameDig", "ScratchVar", "ScratchSlot", "ScratchLoad", "ScratchStore"}
-    for cname, module in (("FrameVar", "pyteal.ast.frame"), ("ScratchVar", "pyteal.ast.scratchvar")):
+    real |= {"DynamicScratchVar"}
+    for cname, module in (("FrameVar", "pyteal.ast.frame"), ("ScratchVar", "pyteal.ast.scratchvar"), ("DynamicScratchVar", "pyteal.ast.scratchvar")):
         c = ctx.model.find_class(cname, module)
         ctx.analysed(c.fq + ".store", c.fq + ".load")
         for vt in types[1:]:
@@ -460,7 +400,7 @@ def r05_7_typed_variables(ctx):
                     layout = Sym("layout", methods={"__getitem__": lambda i: tsym[vt]})
                     var = W.construct("FrameVar", [Sym("proto", attrs={"mem_layout": layout}), 1], {})
                 else:
-                    var = W.construct("ScratchVar", [tsym[vt]], {})
+                    var = W.construct(cname, [tsym[vt]], {})
             except Raised as r:
                 ctx.bad("R05.7", f"{cname}[{vt}]", f"cannot be constructed: {r.exc_text[:60]}", c.where)
                 continue
@@ -580,14 +520,96 @@ def r05_9_if_chains(ctx):
                 outcome = f"typed {t}"
             except Raised as r:
                 outcome = "refused"
-            used = arms if final_else else arms[:-1]
-            if not final_else:
-                used = arms[:len(arms) - 0][: len(arms) - 1 + 0] if False else arms[:last]
+            used = arms[:last] if not final_else else arms
             consistent = len(set(used)) == 1 and (final_else or used[0] == "none")
             n += 1
             construct = f"If.Then({used[0]})" + "".join(f".ElseIf.Then({t_})" for t_ in (used[1:-1] if final_else else used[1:])) + (f".Else({used[-1]})" if final_else else "")
             ctx.check((outcome == "refused") == (not consistent), "R05.9", construct, f"type_of() is {outcome}; the arms leave {used}{'' if final_else else ' and the chain has no final Else'}, so it must be {'accepted' if consistent else 'refused'}", ifc.where, fact={"outcome": outcome})
     ctx.require_min("R05.9", 30)
+
+
+def r05_10_constructs_by_construction(ctx):
+    from sa.lowerworld import World
+
+    ctx.rule("R05.10", "control constructs, built through their own constructors and builder methods from operands of every type, are refused exactly when the typing discipline says so (conditions uint64, loop parts and non-final sequence elements none, arms alike, Pop of a value) and otherwise declare the type their last / common arm leaves")
+    T = ["uint64", "bytes", "none", "anytype"]
+
+    def seq(W, ts):
+        return W.construct("Seq", [W.child(f"e{i}", t) for i, t in enumerate(ts)])
+
+    def seq_list(W, ts):
+        return W.construct("Seq", [[W.child(f"e{i}", t) for i, t in enumerate(ts)]])
+
+    def cond(W, ts):
+        k = len(ts) // 2
+        return W.construct("Cond", [[W.child(f"c{i}", ts[i]), W.child(f"v{i}", ts[k + i])] for i in range(k)])
+
+    def while_(W, ts):
+        return W.construct("While", [W.child("c", ts[0])]).methods["Do"](W.child("b", ts[1]))
+
+    def for_(W, ts):
+        return W.construct("For", [W.child("s", ts[0]), W.child("c", ts[1]), W.child("st", ts[2])]).methods["Do"](W.child("b", ts[3]))
+
+    def if3(W, ts):
+        return W.construct("If", [W.child("c", ts[0]), W.child("t", ts[1]), W.child("e", ts[2])])
+
+    def if2(W, ts):
+        return W.construct("If", [W.child("c", ts[0]), W.child("t", ts[1])])
+
+    def assert_(W, ts):
+        return W.construct("Assert", [W.child(f"c{i}", t) for i, t in enumerate(ts)])
+
+    def pop(W, ts):
+        return W.call("Pop", [W.child("x", ts[0])])
+
+    def suffix(W, ts):
+        return W.construct("SuffixExpr", [W.child("s", ts[0]), W.child("start", ts[1])])
+
+    def exitp(W, ts):
+        return W.construct("ExitProgram", [W.child("ok", ts[0])])
+
+    def dupn(W, ts):
+        return W.construct("DupN", [W.child("v", ts[0]), 3])
+
+    def bury(W, ts):
+        return W.construct("FrameBury", [W.child("v", ts[0]), 1])
+
+    R = ref_require_ok
+    families = [
+        ("SuffixExpr", suffix, (2,), lambda ts: R(ts[0], "bytes") and R(ts[1], "uint64"), lambda ts: "bytes"),
+        ("ExitProgram", exitp, (1,), lambda ts: R(ts[0], "uint64"), lambda ts: "none"),
+        ("DupN", dupn, (1,), lambda ts: R(ts[0], "anytype"), lambda ts: ts[0]),
+        ("FrameBury", bury, (1,), lambda ts: R(ts[0], "anytype"), lambda ts: "none"),
+        ("Seq", seq, (2, 3), lambda ts: all(R(t, "none") for t in ts[:-1]), lambda ts: ts[-1]),
+        ("Seq[list]", seq_list, (2,), lambda ts: all(R(t, "none") for t in ts[:-1]), lambda ts: ts[-1]),
+        # two arms: "alike" is the (symmetric) reference relation; more arms only over concrete types
+        ("Cond", cond, (2, 4), lambda ts: all(R(t, "uint64") for t in ts[: len(ts) // 2]) and all(R(v, ts[len(ts) // 2]) for v in ts[len(ts) // 2 + 1:]), lambda ts: ts[len(ts) // 2]),
+        ("While.Do", while_, (2,), lambda ts: R(ts[0], "uint64") and R(ts[1], "none"), lambda ts: "none"),
+        ("For.Do", for_, (4,), lambda ts: R(ts[0], "none") and R(ts[1], "uint64") and R(ts[2], "none") and R(ts[3], "none"), lambda ts: "none"),
+        ("If[3]", if3, (3,), lambda ts: R(ts[0], "uint64") and R(ts[1], ts[2]), lambda ts: ts[1]),
+        ("If[2]", if2, (2,), lambda ts: R(ts[0], "uint64") and R(ts[1], "none"), lambda ts: "none"),
+        ("Assert", assert_, (1, 2), lambda ts: all(R(t, "uint64") for t in ts), lambda ts: "none"),
+        ("Pop", pop, (1,), lambda ts: R(ts[0], "anytype"), lambda ts: "none"),
+    ]
+    concrete3 = [("Cond", cond, (6,), lambda ts: all(t == "uint64" for t in ts[:3]) and len(set(ts[3:])) == 1, lambda ts: ts[3])]
+    for name, build, arities, ok, typ in families + concrete3:
+        cls = ctx.model.find_func("Pop", "pyteal.ast.unaryexpr") if name == "Pop" else ctx.model.find_class(name.split("[")[0].split(".")[0])
+        ctx.analysed(cls.fq)
+        for k in arities:
+            for ts in itertools.product(T[:3] if k == 6 else T, repeat=k):
+                ts = list(ts)
+                if k == 6 and ts[:3] != ["uint64"] * 3:
+                    continue
+                W = World(ctx.model, real_exprs=True)
+                try:
+                    obj = build(W, ts)
+                    t = obj.methods["type_of"]()
+                    outcome = str(t).split(".")[-1]
+                except Raised:
+                    outcome = "refused"
+                want = typ(ts) if ok(ts) else "refused"
+                ctx.check(outcome == want, "R05.10", f"{name}({', '.join(ts)})", f"{name} over operands of types {ts} is {outcome if outcome == 'refused' else 'accepted with type ' + outcome}; the discipline says {want if want == 'refused' else 'accepted with type ' + want}", cls.where, fact={"outcome": outcome})
+    ctx.require_min("R05.10", 200)
 
 
 def run(ctx):  # noqa: F811
@@ -598,7 +620,7 @@ def run(ctx):  # noqa: F811
     r05_7_typed_variables(ctx)
     r05_8_param_accessors(ctx)
     r05_9_if_chains(ctx)
-    r05_4_construct_typing(ctx)
+    r05_10_constructs_by_construction(ctx)
     r05_6_type_relation(ctx)
     from rules import c02 as _c02, c03 as _c03
 
